@@ -199,8 +199,14 @@ func Replay(tr *Trace, opts RunOpts) (res *RunResult) {
 	}
 	res.LogHash = hex.EncodeToString(lh.h[:])
 	finishResult(res, c, ex)
+	if DebugReplay {
+		DebugState(c)
+	}
 	return res
 }
+
+// DebugReplay makes Replay print the final committed state.
+var DebugReplay bool
 
 // sanitizePlan makes an edited plan executable: heights renumbered, voters/exec restricted to nodes
 // that are actually able (the minimiser may have deleted the crash/restart that the original relied on).
@@ -320,4 +326,10 @@ func SchedHash(t *Trace) string {
 		}
 	}
 	return hex.EncodeToString(h.Sum(nil))[:16]
+}
+
+// SigHash is a short stable hash of a violation signature (used in replay file names).
+func SigHash(sig string) string {
+	h := sha256.Sum256([]byte(sig))
+	return hex.EncodeToString(h[:4])
 }
